@@ -11,8 +11,12 @@
 (*   RootClip  = TRUE : App.Run renders the root surface into a window of   *)
 (*                  the root surface's size (repaired); FALSE: into the     *)
 (*                  full-screen window (the code as found)                  *)
+(*   WideFix   = TRUE : a surface painted over the right half of a wide     *)
+(*                  cell of an earlier surface blanks that cell (proposed   *)
+(*                  repair); FALSE: it is left in the screen buffer, where  *)
+(*                  the renderer lets it hide its right neighbour (as found)*)
 EXTENDS Integers, Sequences, FiniteSets
-CONSTANTS Bits, RowIncl, RootClip
+CONSTANTS Bits, RowIncl, RootClip, WideFix
 
 Wrap(n) == IF Bits = 0 THEN n ELSE n % (2 ^ Bits)
 
@@ -30,28 +34,30 @@ ImplWrite(w, h, c, r) ==
 (* A window stack is a sequence of [col, row, w, h]; element 1 is the       *)
 (* full-screen window (col = row = 0).  Window.New clamps the size to the   *)
 (* parent (only towards the right/bottom); Window.SetCell drops a cell that *)
-(* is outside its window and hands the translated cell to its parent.       *)
+(* is outside its window, or wide and hanging over its right edge, and      *)
+(* hands the translated cell to its parent (the screen does the same).      *)
 NewDim(pdim, off, dim) == IF dim < 0 THEN pdim - off
                           ELSE IF dim + off > pdim THEN pdim - off ELSE dim
 WinNew(p, col, row, cols, rows) ==
   [col |-> col, row |-> row, w |-> NewDim(p.w, col, cols), h |-> NewDim(p.h, row, rows)]
 
-(* Where does cell (c, r) of the innermost window land on the screen?       *)
-(* <<>> when some window on the way drops it.                               *)
-RECURSIVE Land(_, _, _, _)
-Land(stack, k, c, r) ==
+(* Where does cell (c, r), gw columns wide, of the innermost window land on *)
+(* the screen?  <<>> when some window on the way drops it.                  *)
+RECURSIVE Land(_, _, _, _, _)
+Land(stack, k, c, r, gw) ==
   LET win == stack[k] IN
-  IF r >= win.h \/ c >= win.w \/ r < 0 \/ c < 0 THEN <<>>
+  IF r >= win.h \/ c >= win.w \/ r < 0 \/ c < 0 \/ (gw > 1 /\ c + gw > win.w) THEN <<>>
   ELSE IF k = 1 THEN <<c + win.col, r + win.row>>
-  ELSE Land(stack, k - 1, c + win.col, r + win.row)
+  ELSE Land(stack, k - 1, c + win.col, r + win.row, gw)
 
 (* buffer content of a surface at position i: the driver-visible writes     *)
 BufCell(s, i) ==
   LET c == i % s.w
       r == i \div s.w
       hits == {j \in 1..Len(s.cells) : s.cells[j][1] = c /\ s.cells[j][2] = r}
-  IN IF hits = {} THEN <<0, s.fg>>
-     ELSE <<s.cells[CHOOSE m \in hits : \A o \in hits : o <= m][3], s.fg>>
+      m == CHOOSE m \in hits : \A o \in hits : o <= m
+  IN IF hits = {} THEN [g |-> 0, fg |-> s.fg, w |-> 1]
+     ELSE [g |-> s.cells[m][3], fg |-> s.fg, w |-> s.cells[m][4]]
 
 (* indices of kids in painting order: sort.Slice by ZIndex (insertion sort  *)
 (* for short slices: stable)                                                *)
@@ -63,13 +69,21 @@ Order(kids, todo) ==
        IN <<f>> \o Order(kids, todo \ {f})
 
 (* paint the surface's own buffer through the window stack onto grid, a     *)
-(* function from <<x, y>> (0-based screen coordinates) to cells             *)
+(* function from <<x, y>> (0-based screen coordinates) to cells [g, fg, w].  *)
+(* WideFix: a cell that lands in the column right of a wide cell painted by *)
+(* another surface replaces that wide cell by a blank of its style (the     *)
+(* cells of one surface are painted left to right, so the cell left of a    *)
+(* landed cell is this surface's own exactly when it landed as well).       *)
 PaintOwn(grid, s, stack) ==
   LET n == ImplLen(s.w, s.h)
-      land == [i \in 0..(n - 1) |-> Land(stack, Len(stack), i % s.w, i \div s.w)]
+      land == [i \in 0..(n - 1) |-> Land(stack, Len(stack), i % s.w, i \div s.w, BufCell(s, i).w)]
+      landed == {land[i] : i \in 0..(n - 1)} \ {<<>>}
   IN [p \in DOMAIN grid |->
         LET src == {i \in 0..(n - 1) : land[i] = p}
-        IN IF src = {} THEN grid[p] ELSE BufCell(s, CHOOSE i \in src : TRUE)]
+        IN IF src # {} THEN BufCell(s, CHOOSE i \in src : TRUE)
+           ELSE IF WideFix /\ grid[p].w > 1 /\ <<p[1] + 1, p[2]>> \in landed
+                THEN [g |-> 0, fg |-> grid[p].fg, w |-> 1]
+           ELSE grid[p]]
 
 RECURSIVE Render(_, _, _), RenderKids(_, _, _, _)
 Render(grid, s, stack) == RenderKids(PaintOwn(grid, s, stack), s, stack, Order(s.kids, 1..Len(s.kids)))
@@ -79,11 +93,24 @@ RenderKids(grid, s, stack, ord) ==
            win == WinNew(stack[Len(stack)], k.x, k.y, k.s.w, k.s.h)
        IN RenderKids(Render(grid, k.s, Append(stack, win)), s, stack, Tail(ord))
 
+(* Vaxis.render: the cells of a row are sent left to right, a cell w        *)
+(* columns wide is followed by skipping the next w - 1 cells of the buffer. *)
+(* The result is what the terminal displays: [k |-> "g", g, w, fg, plain]   *)
+(* or [k |-> "c"] (see Surface!CellConforms).                               *)
+RECURSIVE ShowRow(_, _, _, _, _)
+ShowRow(g, y, cols, x, acc) ==
+  IF x >= cols THEN acc
+  ELSE LET a == g[<<x, y>>]
+           n == IF a.w - 1 < cols - 1 - x THEN a.w - 1 ELSE cols - 1 - x
+       IN ShowRow(g, y, cols, x + 1 + n,
+                  Append(acc, [k |-> "g", g |-> a.g, w |-> a.w, fg |-> a.fg, plain |-> TRUE])
+                    \o [i \in 1..n |-> [k |-> "c"]])
+
 (* App.Run: clear the full-screen window, render the root surface into it   *)
 ImplScreen(root, rows, cols) ==
-  LET clear == [p \in (0..(cols - 1)) \X (0..(rows - 1)) |-> <<0, 0>>]
+  LET clear == [p \in (0..(cols - 1)) \X (0..(rows - 1)) |-> [g |-> 0, fg |-> 0, w |-> 1]]
       full == [col |-> 0, row |-> 0, w |-> cols, h |-> rows]
       rootwin == WinNew(full, 0, 0, root.w, root.h)
       g == Render(clear, root, IF RootClip THEN <<full, rootwin>> ELSE <<full>>)
-  IN [y \in 1..rows |-> [x \in 1..cols |-> g[<<x - 1, y - 1>>]]]
+  IN [y \in 1..rows |-> ShowRow(g, y - 1, cols, 0, <<>>)]
 =============================================================================
